@@ -364,6 +364,12 @@ def simplify(ex):
                 if rng is None or rng[0] <= v <= rng[1]:
                     return ("const", v, ty, None)
         return ex
+    if k == "un":
+        a = ex[2]
+        if ex[1] == "Not" and a[0] == "const" and a[2] in ("u8", "u16", "u32", "u64", "usize"):
+            bits = {"u8": 8, "u16": 16, "u32": 32, "u64": 64, "usize": 64}[a[2]]
+            return ("const", (~a[1]) & ((1 << bits) - 1), a[2], None)
+        return ex
     if k == "cast":
         a = ex[2]
         if a[0] == "const" and ex[3] == "IntToInt":
